@@ -31,7 +31,8 @@ META = {
     "specs": ["Session", "SessionTrace"],
 }
 
-KINDS = ["plain", "include", "evalrst_include_opt", "html_img", "inv_wild", "subst", "subst_circ", "frontmatter_ext", "anchors", "footnotes"]
+KINDS = ["plain", "include", "evalrst_include_opt", "html_img", "inv_wild", "subst", "subst_circ", "frontmatter_ext", "anchors", "footnotes",
+         "inv_stable", "inv_latest"]
 SPHINX_KINDS = ["figure_md", "html_img", "anchors", "xlink", "include", "frontmatter_ext", "figure_md_fail", "plain"]
 
 
@@ -42,6 +43,8 @@ def kind_text(k, name="doc"):
         "evalrst_include_opt": "```{eval-rst}\n.. include:: r.rst\n   :heading-offset: 1\n```\n",
         "html_img": '<img src="a.png" alt="x">\n',
         "inv_wild": "<inv:k:*:*#na*>\n\n<inv:k:std:label#n\\*>\n",
+        "inv_stable": "<inv:k#name1>\n",          # parsed with the inventory's base URL .../stable/
+        "inv_latest": "<inv:k#name1>\n",          # the same file configured with the base URL .../latest/
         "subst": "{{ sa }} and {{ sb }}\n",
         "subst_circ": "{{ ca }}\n\nafter\n",
         "frontmatter_ext": '---\nmyst:\n  enable_extensions: [html_image, deflist]\n  heading_anchors: 1\n---\n\n<img src="a.png" alt="y">\n\nterm\n: def\n\n# H\n',
@@ -75,8 +78,11 @@ def _setup_dir(d: Path):
 def parse_one(d: Path, k):
     from ..frontends import docutils_doctree
     text = kind_text(k)
+    ov = docutils_overrides(d)
+    if k in ("inv_stable", "inv_latest"):
+        ov["myst_inventories"] = {"k": [f"https://e.x/{k[4:]}/", ov["myst_inventories"]["k"][1]]}
     try:
-        doc, warns = docutils_doctree(text, docutils_overrides(d), source_path=str(d / "doc.md"))
+        doc, warns = docutils_doctree(text, ov, source_path=str(d / "doc.md"))
     except Exception as e:  # noqa: BLE001
         return {"sig": f"raised {type(e).__name__}: {e}", "abs": "raised"}
     from docutils import nodes
@@ -85,6 +91,9 @@ def parse_one(d: Path, k):
         ab = "option error" if any("include" in w["msg"] and w["level"] in ("ERROR", "SEVERE") for w in warns) else "option accepted"
     elif k == "html_img":
         ab = "image" if list(doc.findall(nodes.image)) else "raw"
+    elif k in ("inv_stable", "inv_latest"):
+        uris = [r.get("refuri", "") for r in doc.findall(nodes.reference)]
+        ab = "stable url" if any("/stable/" in u for u in uris) else ("latest url" if any("/latest/" in u for u in uris) else "no link")
     else:
         ab = "ok"
     return {"sig": sig, "abs": ab}
@@ -152,7 +161,7 @@ def run(ctx):
     ctx.assumptions += ["histories: docutils front end; builds: in-process Sphinx in a fresh forked process per build, html builder",
                         "the schedule is imposed from outside the code under test (env-before-read-docs handler; substituted make_chunks)"]
     base = {"Kinds": set(KINDS), "MaxHist": 2 if quick else 3, "Docs": {"d1"}, "MaxWorkers": 1, "DocKind": "<-DocKindV", "Part": "history",
-            "DevIncludeSpecMutation": False, "DevSharedExtensionSet": False, "DevEnvAttribute": False}
+            "DevIncludeSpecMutation": False, "DevSharedExtensionSet": False, "DevEnvAttribute": False, "DevInventoryCache": False}
     bdocs = [("figdoc", "figure_md"), ("imgdoc", "html_img"), ("anchors_doc", "anchors"), ("xdoc", "xlink"), ("fig2", "figure_md_plain")]
     dk = {"DocKindV": "(" + " @@ ".join(f'"{n}" :> "{k}"' for n, k in bdocs) + ")"}
     invs = ["NonInterference", "StateUntouched", "ScheduleIndependent", "MergedComplete", "Emit"]
@@ -167,7 +176,7 @@ def run(ctx):
     for act, res in (("Parse", rh), ("EndHist", rh), ("Read", rb), ("EndBuild", rb)):
         if res.coverage.get(act, (0, 0))[0] == 0:
             raise tlc.MachineryFailure(f"Session: action {act} never taken (vacuous)")
-    for dev, inv, cons in (("DevIncludeSpecMutation", "NonInterference", {**base, "MaxHist": 2}),
+    for dev, inv, cons in (("DevIncludeSpecMutation", "NonInterference", {**base, "MaxHist": 2}), ("DevInventoryCache", "NonInterference", {**base, "MaxHist": 2}),
                            ("DevSharedExtensionSet", "ScheduleIndependent", bconst), ("DevEnvAttribute", "MergedComplete", bconst)):
         rd = tlc.run("Session", tlc.cfg(ctx, f"s_{dev}.cfg", {**cons, dev: True}, invariants=[inv]), wd=ctx.wd, defs=dk)
         tlc.expect_violation(rd, inv, f"Session {dev}")
